@@ -31,14 +31,14 @@ def main(argv):
     vb = ber.varbind(ber.enc_oid([1, 3, 6, 1, 2, 1, 1, 5, 0]), ber.enc_value("os", b"FORGED"))
     for cfg in cfgs:
         for mode in (("sync", "async") if thorough else ("sync",)):
-            sc = {"version": "v3", "mode": mode, "timeout": 0.05, "steps": [],
+            sc = {"version": "v3", "mode": mode, "timeout": 0.12, "steps": [],
                   "v3": dict(cfg, engine_id="80001f8880a1b2c3d4", agent_engine_id="80001f8880a1b2c3d4", boots=2, time=500)}
             meta = []
             for mac in MACS:
                 for enc in (("auto", "no") if cfg["priv"] else ("auto",)):
                     for body in ("resp", "report"):
                         for mis in (None, "user", "user-extended", "user-prefix", "user-empty", "engine", "engine-extended", "engine-prefix",
-                                    "engine-empty", "msgid", "rid", "msgid-2^31", "rid-2^31", "rid+2^32"):
+                                    "engine-empty", "msgid", "rid", "msgid-2^31", "rid-2^31", "rid+2^32", "msgid+2^32", "msgid-2^32", "msgid+2^48", "rid-2^32", "rid+2^62"):
                             if mis and (mac != "valid" or enc != "auto") and not thorough:
                                 continue
                             spec = {"vbs": vb.hex(), "mac": mac, "encrypt": enc}
@@ -70,6 +70,10 @@ def main(argv):
                                 spec["rid"] = "same-2147483648"
                             elif mis == "rid+2^32":
                                 spec["rid"] = "same+4294967296"
+                            elif mis in ("msgid+2^32", "msgid-2^32", "msgid+2^48"):
+                                spec["msgid"] = "same" + {"msgid+2^32": "+4294967296", "msgid-2^32": "-4294967296", "msgid+2^48": "+281474976710656"}[mis]
+                            elif mis in ("rid-2^32", "rid+2^62"):
+                                spec["rid"] = "same" + {"rid-2^32": "-4294967296", "rid+2^62": "+4611686018427387904"}[mis]
                             sc["steps"].append({"op": "get", "args": ["1.3.6.1.2.1.1.5.0"], "replies": [[spec]]})
                             meta.append({"mac": mac, "enc": enc, "body": body, "mis": mis, "priv": bool(cfg["priv"]), "alg": cfg["auth"][0]})
             scs.append(sc)
